@@ -539,3 +539,98 @@ func TestC15LeadingNewline(t *testing.T) {
 		ev.Case(evid.Hash(name), true, "leading-newline-name")
 	})
 }
+
+// TestC15Burst: several administrators create, edit and delete the same logins at the same
+// instant.  Which request wins is not constrained; afterwards the three views must still be
+// one set: the listing is taken as the reference, and the files, a fresh manager and the
+// logins that authenticate must equal it.
+func TestC15Burst(t *testing.T) {
+	ev := evid.New("C15", "TestC15Burst")
+	defer ev.Flush()
+	pool := []string{"bob", "al ice", "a.b"}
+	rapid.Check(t, func(rt *rapid.T) {
+		nAdmins := rapid.IntRange(2, 5).Draw(rt, "admins")
+		rounds := rapid.IntRange(4, 12).Draw(rt, "rounds")
+		type op struct {
+			kind, login string
+		}
+		var plan [][]op
+		for r := 0; r < rounds; r++ {
+			focus := rapid.SampledFrom(pool).Draw(rt, fmt.Sprintf("focus%d", r))
+			var ops []op
+			for a := 0; a < nAdmins; a++ {
+				l := focus
+				if rapid.IntRange(0, 4).Draw(rt, fmt.Sprintf("other%d_%d", r, a)) == 0 {
+					l = rapid.SampledFrom(pool).Draw(rt, fmt.Sprintf("l%d_%d", r, a))
+				}
+				ops = append(ops, op{rapid.SampledFrom([]string{"create", "delete", "set", "delete", "create"}).Draw(rt, fmt.Sprintf("k%d_%d", r, a)), l})
+			}
+			plan = append(plan, ops)
+		}
+		inWorld(rt, hlsim.Options{Accounts: []hlsim.AccountSpec{acct("admin", "Admin", "adminpw", allAccess)}, Agreement: "a"}, func(rt *rapid.T, w *hlsim.World) {
+			s := &c15state{rt: rt, w: w, model: map[string]*c15acct{}, ev: ev, pws: []string{"adminpw"}}
+			s.reconnectAdmin()
+			var admins []*hlsim.Conn
+			for a := 0; a < nAdmins; a++ {
+				admins = append(admins, loginAs(rt, w, fmt.Sprintf("10.15.9.%d:1", a+1), "admin", "adminpw", fmt.Sprintf("admin%d", a)))
+			}
+			for r, ops := range plan {
+				var desc []string
+				for a, o := range ops {
+					c := admins[a]
+					id := c.NewID()
+					lf := hlref.F(hlref.FUserLogin, hlref.Obfuscate([]byte(o.login)))
+					name := fmt.Sprintf("%s-r%d-a%d", o.kind, r, a)
+					acc := hlref.AccessOf(a+1, 20+r%10).Defined()
+					var t hlref.Tran
+					switch o.kind {
+					case "create":
+						t = hlref.Tran{Type: hlref.TranNewUser, ID: id, Fields: []hlref.Field{lf, sfld(hlref.FUserName, name), hlref.F(hlref.FUserPassword, hlref.Obfuscate([]byte("pw"))), hlref.F(hlref.FUserAccess, acc[:])}}
+					case "set":
+						t = hlref.Tran{Type: hlref.TranSetUser, ID: id, Fields: []hlref.Field{lf, sfld(hlref.FUserName, name), hlref.F(hlref.FUserPassword, hlref.Obfuscate([]byte("pw"))), hlref.F(hlref.FUserAccess, acc[:])}}
+					default:
+						t = hlref.Tran{Type: hlref.TranDeleteUser, ID: id, Fields: []hlref.Field{lf}}
+					}
+					desc = append(desc, o.kind+" "+o.login)
+					c.SendAsync(t.Encode())
+				}
+				settle(0)
+				s.history = append(s.history, fmt.Sprintf("round %d at one instant: %s", r, strings.Join(desc, ", ")))
+				for _, c := range admins {
+					c.TakeInbox() // which request wins, is refused or stays unanswered is not constrained here
+				}
+				// the listing is the reference view
+				lr := s.admin.Request(hlref.TranListUsers)
+				s.mustReply(lr, "list-users")
+				s.model = map[string]*c15acct{}
+				for _, d := range lr.GetAll(hlref.FData) {
+					fs, err := hlref.DecodeSubFields(d)
+					if err != nil {
+						rt.Fatalf("list-users record unparseable: %v", err)
+					}
+					tr := hlref.Tran{Fields: fs}
+					name, _ := tr.Get(hlref.FUserName)
+					login, _ := tr.Get(hlref.FUserLogin)
+					accb, _ := tr.Get(hlref.FUserAccess)
+					var a hlref.Access
+					copy(a[:], accb)
+					if l := string(hlref.Obfuscate(login)); l != "admin" {
+						s.model[l] = &c15acct{name: string(name), access: a, pw: "pw"}
+					}
+				}
+				ctx := fmt.Sprintf("after round %d (listing: %v)", r, keys(s.model))
+				s.checkList(ctx)
+				s.checkDisk(ctx)
+				s.checkFreshManager(ctx)
+				for _, l := range pool {
+					s.expectLogin(l, "pw", ctx)
+				}
+			}
+		})
+		ev.Case(evid.Hash("c15burst", fmt.Sprint(plan)), true, "burst", fmt.Sprintf("admins:%d", nAdmins))
+		ev.Label("burst_rounds", rounds)
+		if ev.WantSample() {
+			ev.Sample(map[string]any{"engine": "bubble, concurrent handlers", "administrators": nAdmins, "first_rounds": fmt.Sprint(plan[:min(3, len(plan))])})
+		}
+	})
+}
